@@ -17,12 +17,12 @@ from vlib.runner import Facet, Prop, Violation, require
 
 OPS = [
     "add", "sub", "mul", "div", "pow", "min", "max", "radd", "rsub", "rmul", "rdiv", "add_num", "neg", "abs", "abs_m",
-    "sign", "sum_to", "sum_over", "sum_nothing", "cumsum", "apply", "cast_to", "cast_same", "shares", "getitem",
+    "identity_ops", "identity_ops", "sum_builtin", "sign", "sum_to", "sum_over", "sum_nothing", "cumsum", "apply", "cast_to", "cast_same", "shares", "getitem",
     "getitem", "getitem_ellipsis", "getitem_bare", "copy", "full_like", "full", "from_superset", "constructor",
     "to_df", "from_df", "split", "stack", "setitem_ndarray", "setitem_array", "stock", "lifetime", "system", "dimset_ops", "plot",
 ]
 INDEPENDENT = {
-    "add", "sub", "mul", "div", "pow", "min", "max", "radd", "rsub", "rmul", "rdiv", "add_num", "neg", "abs", "abs_m",
+    "identity_ops", "sum_builtin", "add", "sub", "mul", "div", "pow", "min", "max", "radd", "rsub", "rmul", "rdiv", "add_num", "neg", "abs", "abs_m",
     "sign", "cast_to", "cast_same", "getitem", "getitem_ellipsis", "getitem_bare", "copy", "full_like", "split",
 }
 SENT = -12345.0
@@ -104,6 +104,14 @@ def run_case(desc):
         results.append(2 / x)
     elif op == "add_num":
         results.append(x + 0)
+    elif op == "identity_ops":
+        # arithmetic with neutral elements is still arithmetic: the result is a new, independent array
+        k_ = desc.get("k", 0) % 12
+        results.append([lambda: 0 + x, lambda: x + 0, lambda: x - 0, lambda: 1 * x, lambda: x * 1, lambda: x / 1, lambda: x**1,
+                        lambda: 0.0 + x, lambda: False + x, lambda: x * 1.0, lambda: x.minimum(x), lambda: x.maximum(x)][k_]())
+    elif op == "sum_builtin":
+        # the builtin sum() starts from the int 0 (used for the per-process balance)
+        results.append(sum([x]) if desc["flag"] else sum([x, x]))
     elif op == "neg":
         results.append(-x)
     elif op == "abs":
@@ -286,7 +294,7 @@ def cases(draw):
     elems = st.floats(0.5, 9.0)
     x = draw(gen.arrays(U, modes=("float",), tag="x", min_dims=1, elems=elems))
     y = draw(gen.arrays(U, modes=("float",), tag="y", min_dims=0, elems=elems))
-    d = {"universe": U, "op": op, "x": x, "y": y, "flag": draw(st.booleans())}
+    d = {"universe": U, "op": op, "x": x, "y": y, "flag": draw(st.booleans()), "k": draw(st.integers(0, 11))}
     if op == "getitem":
         d["sel"] = draw(selectors(U, x["letters"], allow_list=False))
         d["syntax"] = draw(st.sampled_from(["dict_letter", "dict_name"]))
